@@ -119,10 +119,25 @@ def rand_str_op(rng, text, big_ok=True):
         n = rng.choice(STR_LENS)
     else:
         n = rng.choice([65535, 65536, 65537, 70000])
+    if n == 0:
+        return empty_str_op(rng, text)
     if n <= 40 and rng.random() < 0.8:
         bs = bytes(rng.getrandbits(8) for _ in range(n))
-        return f"{kind} {bs.hex() or '-'}"
+        return f"{kind} {bs.hex()}"
     return f"{kind}r {rng.getrandbits(8):02x} {n}"
+
+
+EMPTY_FORMS = ["NULL", "-", "r"]
+
+
+def empty_str_op(rng, text, form=None):
+    """the empty string in each of the argument forms a caller may legitimately use: {NULL, 0} (a zero-initialised
+    cursor), {non-NULL, 0} from a literal, {non-NULL, 0} from a buffer"""
+    kind = "text" if text else "bytes"
+    form = form or rng.choice(EMPTY_FORMS)
+    if form == "r":
+        return f"{kind}r {rng.getrandbits(8):02x} 0"
+    return f"{kind} {form}"
 
 
 def scalar_op(rng, big_ok=True):
@@ -340,6 +355,8 @@ def compound_ops(rng, depth=2):
     if r == 3:
         return ["indef_map", "brk"]
     if r == 4:
+        if rng.random() < 0.5:
+            return [empty_str_op(rng, rng.random() < 0.5)]      # the empty string, any argument form
         return [rng.choice(["indef_bytes", "indef_text"]), "brk"]
     if r == 5:
         t = rng.random() < 0.5
@@ -384,6 +401,53 @@ def case_map_keys(rng):
         ops.append("peek")
     ops += ["consume", "rem", "consume", "rem", "consume"]
     return Case(ops, {"kind": "mapkeys"})
+
+
+def degenerate_cases():
+    """explicitly allowed degenerate arguments at every entry point, enumerated (no randomness): the empty byte / text
+    string in each argument form, at top level, as array element, map key, map value, inside indefinite containers,
+    as indefinite-string chunk and under a tag - always followed by a sentinel so a vanished item shifts everything;
+    empty arrays / maps; nothing written at all; decoder over a {NULL,0} and a {non-NULL,0} source with every call"""
+    out = []
+    tail = ["u 7", "enc", "decode_all", "load", "consume", "rem", "consume", "rem", "consume"]
+    for kind in ("text", "bytes"):
+        for form in EMPTY_FORMS:
+            e = f"{kind}r 41 0" if form == "r" else f"{kind} {form}"
+            ctxs = {
+                "top": [e],
+                "two": [e, e],
+                "arr_elem": ["arr 3", "u 1", e, "u 2"],
+                "arr_only": ["arr 1", e],
+                "arr_last": ["arr 2", "u 1", e],
+                "map_key": ["map 2", e, "u 1", "u 2", "u 3"],
+                "map_value": ["map 2", "u 1", e, "u 2", "u 3"],
+                "map_both": ["map 1", e, e],
+                "indef_arr": ["indef_arr", e, "u 1", "brk"],
+                "indef_arr_only": ["indef_arr", e, "brk"],
+                "indef_map_key": ["indef_map", e, "u 1", "brk"],
+                "indef_map_value": ["indef_map", "u 1", e, "brk"],
+                "chunk": ["indef_" + kind, e, f"{kind} 6162", e, "brk"],
+                "chunk_only": ["indef_" + kind, e, "brk"],
+                "tag": ["tag 2", e],
+                "tag_tag": ["tag 65536", "tag 0", e],
+                "nested": ["arr 1", "map 1", "tag 1", e, "arr 1", e],
+            }
+            for name, ops in ctxs.items():
+                out.append(Case(ops + tail, {"kind": "degenerate", "ctx": name}))
+    for ops in (["arr 0"], ["map 0"], ["arr 0", "map 0"], ["tag 0", "arr 0"], ["tag 0", "map 0"], ["arr 2", "arr 0", "map 0"],
+                ["map 1", "arr 0", "map 0"], ["indef_arr", "brk"], ["indef_map", "brk"], ["indef_bytes", "brk"], ["indef_text", "brk"],
+                ["indef_arr", "arr 0", "indef_map", "brk", "brk"], ["u 0"], ["n 0"], ["tag 0", "u 0"], ["f 0000000000000000"]):
+        out.append(Case(ops + tail, {"kind": "degenerate", "ctx": "empty_container"}))
+    # nothing written; reset to nothing
+    out.append(Case(["enc", "decode_all", "load", "peek", "rem"], {"kind": "degenerate", "ctx": "nothing"}))
+    out.append(Case(["enc", "load", "consume", "rem"], {"kind": "degenerate", "ctx": "nothing"}))
+    out.append(Case(["u 1", "reset", "enc", "decode_all", "text NULL", "enc", "decode_all"], {"kind": "degenerate", "ctx": "reset"}))
+    # decoder over an empty source in both forms, every entry point first
+    for src in ("NULL", "-"):
+        for first in ("all", "peek", "consume", "skip", "rem", "pop uint", "pop text", "pop bytes", "pop float", "pop array", "pop map",
+                      "pop tag", "pop bool", "pop negint"):
+            out.append(Case([f"dec {src}", first, "rem", "all"], {"kind": "degenerate", "ctx": "empty_source"}))
+    return out
 
 
 def case_bigstr(rng):
@@ -459,7 +523,7 @@ def case_raw(rng):
     elif r < 0.72:
         # huge declared length / count with little data behind it
         data = enc_head(rng.choice([2, 3, 4, 5]), rng.choice([U64, U64 - 8, 1 << 63, 1 << 32, 1000]), 8) + data
-    ops = [f"dec {data.hex() or '-'}"]
+    ops = [f"dec {data.hex() or rng.choice(['-', 'NULL'])}"]
     m = rng.random()
     if m < 0.45:
         ops.append("all")
@@ -507,6 +571,7 @@ def gen_cases(rng, tier):
             cases.append(case_growth_edge(rng, d, item))
     for _ in range(400 if q else 12000):
         cases.append(case_map_keys(rng))
+    cases += degenerate_cases()
     for _ in range(40 if q else 1500):
         cases.append(case_growth_edge(rng))
     for _ in range(3 if q else 40):
@@ -536,7 +601,7 @@ def _written_item(op):
     if k == "f32":
         return ("single", int(t[1], 16))
     if k in ("text", "bytes"):
-        return (k, b"" if t[1] == "-" else bytes.fromhex(t[1]))
+        return (k, b"" if t[1] in ("-", "NULL") else bytes.fromhex(t[1]))
     if k in ("textr", "bytesr"):
         return (k[:-1], bytes([int(t[1], 16)]) * int(t[2]))
     if k == "bool":
@@ -799,7 +864,7 @@ def oracle(case, lines):
                 do_all()
             continue
         if t[0] == "dec":
-            data = b"" if t[1] == "-" else bytes.fromhex(t[1])
+            data = b"" if t[1] in ("-", "NULL") else bytes.fromhex(t[1])
             raw, pos, tracking, delems = True, 0, True, None
             continue
         if data is None:
